@@ -130,6 +130,10 @@ pub fn main(args: &[String]) -> i32 {
                                    "polys": pj, "chk": picks.iter().map(|p| vec![p.0, p.1]).collect::<Vec<_>>(),
                                    "vals": picks.iter().map(|p| rm2.get(p.1, p.0).v()).collect::<Vec<_>>()}));
                 }
+                // the same over the quadratic and the cubic extension: an extension column evaluated at base-field points is its
+                // limb polynomials evaluated there, so the event lists the limbs as base-field columns
+                ext_matrix::<winter_math::fields::QuadExtension<Toy>>(&mut ev, c.cols, n, b, offset, &domain, ci, &mut rng, full_upto);
+                ext_matrix::<winter_math::fields::CubeExtension<Toy>>(&mut ev, c.cols, n, b, offset, &domain, ci, &mut rng, full_upto);
                 let cm2 = cm.evaluate_columns_over(&domain);
                 ev.push(json!({"ev": "matrix", "fn": "ColMatrix::evaluate_columns_over", "n": n, "blowup": b, "offset": offset.v(), "rows": cm2.num_rows(), "cols": cm2.num_cols(),
                                "polys": pj, "chk": picks.iter().map(|p| vec![p.0, p.1]).collect::<Vec<_>>(),
@@ -163,4 +167,35 @@ pub fn main(args: &[String]) -> i32 {
     out.flush().unwrap();
     println!("{}", json!({"configs": cfgs.len(), "panics": panics}));
     0
+}
+
+
+/// LDE of a matrix of extension-field columns, recorded limb by limb as a base-field "matrix" event
+#[allow(clippy::too_many_arguments)]
+fn ext_matrix<E: FieldElement<BaseField = Toy>>(ev: &mut Vec<serde_json::Value>, cols: usize, n: usize, b: usize, offset: Toy, domain: &StarkDomain<Toy>, ci: usize, rng: &mut Rng, full_upto: usize) {
+    let d = E::EXTENSION_DEGREE;
+    if cols * d > 255 {
+        return;
+    }
+    // limb polynomials: column k, limb j -> rand_poly
+    let limbs: Vec<Vec<Toy>> = (0..cols * d).map(|k| rand_poly(n, ci + 3 * k + 1, rng)).collect();
+    let columns: Vec<Vec<E>> = (0..cols)
+        .map(|k| {
+            let flat: Vec<Toy> = (0..n).flat_map(|i| (0..d).map(move |j| (k, i, j))).map(|(k, i, j)| limbs[k * d + j][i]).collect();
+            E::slice_from_base_elements(&flat).to_vec()
+        })
+        .collect();
+    let cm = ColMatrix::new(columns);
+    let rows = n * b;
+    let total = rows * cols * d;
+    let picks: Vec<(usize, usize)> = if total <= full_upto {
+        (0..rows).flat_map(|r| (0..cols * d).map(move |k| (r, k))).collect()
+    } else {
+        (0..256).map(|_| (rng.below(rows as u64) as usize, rng.below((cols * d) as u64) as usize)).chain([(0, 0), (rows - 1, cols * d - 1)]).collect()
+    };
+    let rm = RowMatrix::<E>::evaluate_polys_over::<8>(&cm, domain);
+    let pj: Vec<Vec<u64>> = limbs.iter().map(|p| ints(p)).collect();
+    ev.push(json!({"ev": "matrix", "fn": format!("RowMatrix::evaluate_polys_over<8> (extension degree {d})"), "n": n, "blowup": b, "offset": offset.v(),
+                   "rows": rm.num_rows(), "cols": rm.num_cols() * d, "polys": pj, "chk": picks.iter().map(|p| vec![p.0, p.1]).collect::<Vec<_>>(),
+                   "vals": picks.iter().map(|p| rm.get(p.1 / d, p.0).base_element(p.1 % d).v()).collect::<Vec<_>>()}));
 }
